@@ -188,8 +188,11 @@ def lazy_monitors(prop, o):
         if o["terminated"] and not o["fails"] and not o["dry"] and not o["never"]:
             for name in o["flat"]:
                 res = o["leaf_results"].get(name)
+                if not res and not o["compatible"].get(name):
+                    continue        # no worker can compose this test (decided per worker in a fresh graph): exempt
                 if not res or "UNKNOWN" in res:
-                    out.append(("C02:lazy:selected-test-without-definite-result", f"{name}: results {res}"))
+                    out.append(("C02:lazy:selected-test-without-definite-result", f"{name}: results {res}" +
+                                (f" although it can be composed for {o['compatible'].get(name)}" if not res else "")))
                     break
     if prop == "C03" and o["budget"]:
         out.append(("C03:lazy:budget-exceeded", f"executions over budget: {o['budget']}"))
